@@ -70,10 +70,10 @@ CHECKS = {
          'connect to a healthy device and the whole scenario again; a second fault at indices of the recovery pass (quick: stated stride; thorough: all pairs); <=1 deviation of the device '
          'wire order; both twins. Each call must raise or return the solo result, no lock may stay held, close()/connect() must complete, the store must be empty after connect(), the '
          'replay must return the solo results.', 'trusts adbsim; lock state read from the Lock attributes; a VLock stand-in turns self-deadlock into a verdict', '4/C12'),
- 'C15': ('exploration', 'deviation-bounded stateless DFS over per-bulk_write accepted-byte choices; in-memory part only so far',
+ 'C15': ('exploration', 'deviation-bounded stateless DFS over per-bulk_write accepted-byte choices + loopback TCP conformance sessions with 4 KiB socket buffers',
          'Every bulk_write of a session (connect with signature, shell, stat, 3-WRTE push, pull) may accept all / 1 / len-1 / half of the bytes and reports the count: all placements of <=2 '
          '(thorough 3) deviations, plus global capacities 1..4095, both twins; whenever a call returns normally the device model must have received exactly the byte stream of the unlimited run.',
-         'trusts adbsim; the real-socket half of C15 (loopback with small SO_SNDBUF) is exercised by the loopback part added with C18', '4/C15'),
+         'trusts adbsim; the loopback sessions are conformance runs (kernel scheduling not enumerated)', '4/C15'),
  'C16': ('exploration', 'differential exploration: every generated program runs through both twins under the same recorded choice list',
          'Nine program families (operation sequences with fragment deviations, all handshake decision sequences, failing transfers, a fault at every transport-call index, stalls, availability '
          'sequences with empty paths, push sources x callbacks / pull destinations / id wrap, early device close, short writes) are executed through AdbDevice and AdbDeviceAsync against twin '
@@ -94,6 +94,16 @@ CHECKS = {
          'all-0xff, every single byte / single bit, leading zeros, random) are signed by each; s^e mod n must equal the EMSA-PKCS1-v1_5 encoding of the token as a SHA-1 digest, cryptography\'s '
          'Prehashed(SHA1) verifier must agree, the three signers must produce identical bytes, and the 524-byte Android RSAPublicKey must decode to the private key\'s numbers.',
          'decided for the enumerated keys x token shapes only (RSA over all keys is not finite-state); OS randomness in keygen() is not owned', '4/C17'),
+ 'C18': ('exploration', 'exhaustive enumeration of lock-step scripts on real loopback sockets (one thread drives both ends) + loopback conformance sessions',
+         'Peer write sequences (<=3 writes from 7 sizes) x 4 read sizes x 3 interleaving patterns x both transports, reads on an empty pipe with two timeouts followed by a late write, '
+         'transport writes read back by the peer, double close, close/connect/read on a fresh connection; every read must return 1..n bytes, the concatenation must equal the writes, an empty '
+         'pipe must raise TcpTimeoutException not before half the timeout. Whole sessions (incl. 1 MiB push, 4 KiB socket buffers, slow reader) against a socket server running the device model must '
+         'equal the in-memory session.', 'kernel scheduling is not enumerated: only timing-independent assertions and one-sided time bounds; sessions are evaluations, not exhaustive', '4/C18'),
+ 'C20': ('exploration', 'exhaustive enumeration over a fake usb1 backend: contract grid, short-transfer DFS, error injection at every bulk call index',
+         'A fake python-libusb1 module wired to the device model is placed in sys.modules. Grid: 6 timeouts x 2 defaults x 4 read sizes x kernel driver x device selection (3 USB devices on the bus); '
+         'a whole AdbDeviceUsb session under all placements of <=2 (thorough 3) backend short transfers; every USBError subclass at every bulkRead/bulkWrite index; errors while closing, use '
+         'after close, double close, reconnect. The backend call log must show one claimInterface per connect, correct endpoints/lengths/millisecond timeouts, documented error types and a '
+         'session identical to the in-memory one.', 'mc/fakeusb.py is the trusted model of a conforming libusb backend; connect-phase backend errors unspecified', '4/C20'),
 }
 NOT_YET = 'check not built yet in this round (planned, see DESIGN.md section 4); not claimed until it runs'
 
